@@ -391,5 +391,6 @@ fn c19_k_min_polygon_map() {
 }
 
 
-// (GeometryCollection::bounding_rect cannot be checked modularly either: Kani 0.68 rejects `#[kani::stub(<Geometry<i32> as
-//  BoundingRect<i32>>::bounding_rect, model)]` -- "does not currently support stubs or function contracts on generic functions in traits")
+// (GeometryCollection::bounding_rect cannot be checked modularly with Kani 0.68 either: stubbing the members' trait method
+//  is rejected -- "does not currently support stubs or function contracts on generic functions in traits"; it is under a
+//  Verus contract instead: unit c19_gc)
